@@ -136,8 +136,8 @@ class Impl:
             "wordcount": self.env.from_string("{{ s|wordcount }}"),
             "filesizeformat": self.env.from_string("{{ v|filesizeformat(b) }}"),
             # the converted value itself is not printed (str() of a huge int has its own digit limit)
-            "int": self.env.from_string("{% set r = v|int(d, b) %}{{ 'default' if r == d and r is integer else 'value' }}"),
-            "float": self.env.from_string("{% set r = v|float(d) %}{{ 'default' if r == d and r is float else 'value' }}"),
+            "int": self.env.from_string("{{ 'default' if (v|int(d, b)) == d else 'value' }}"),
+            "float": self.env.from_string("{{ 'default' if (v|float(d)) == d else 'value' }}"),
         }
 
     def call(self, route, name, **kw):
